@@ -7,6 +7,8 @@ package main
 //	fc <selfkey> <requesterenr> <askerip:port> <contentkey> <F:contenthex | N | E> <enrhex:live,...> ; <requester id> <content id> <table records in nodeList order>
 //	     | raw <replylen> <hex> / connid <replylen> / enrs <replylen> <tags> / err
 //	pc <selfkey> <senderenr> <resphex> <genflags> ; <senderrec> <E | recs> | raw <hex> / connid <hex> / enrs <tags> / err / panic
+//	uc <own versions> <peer pv entry: M (missing) | E (empty) | X (malformed) | digits> <enc|dec> <hex> | ok <hex> / err
+//	     encodeUtpContent / decodeUtpContent INCLUDING the version lookup on the peer's record (versions: an x suffix below = no pv entry advertised)
 //	lfc <versionsA> <versionsB> <size> ; <sha256 of the stored bytes> | ok <selector> <len> <sha256 of what the asker got> <largest datagram> / err
 //	lfe <versionsA> <versionsB> ; <asker id> <content id> <responder table records> | ok <tags the asker got> <largest datagram> / err
 import (
@@ -17,6 +19,7 @@ import (
 	"net/netip"
 	"strconv"
 	"strings"
+	"sync"
 
 	"github.com/ethereum/go-ethereum/p2p/enode"
 	"github.com/ethereum/go-ethereum/p2p/enr"
@@ -164,6 +167,88 @@ func c08execPc(c *Ctx, keyhex string, senderEnr []byte, resp []byte, gen string)
 	c.Emit("pc %s %s %s %s ; %s %s | %s", keyhex, hx(senderEnr), hx(resp), gen, senders, dec, obs)
 }
 
+var c08verInsts = map[string]*portalwire.VerifHInstance{}
+
+func c08verInst(r *Rng, own string) *portalwire.VerifHInstance {
+	if i, ok := c08verInsts[own]; ok {
+		return i
+	}
+	vs := []uint8{}
+	for _, ch := range own {
+		vs = append(vs, uint8(ch-'0'))
+	}
+	i := hInstanceV(r, vs)
+	c08verInsts[own] = i
+	return i
+}
+
+// c08execUc: stream framing for a fresh peer whose record carries the given pv entry (no cached version).
+func c08execUc(c *Ctx, r *Rng, own, pv, op string, data []byte) {
+	inst := c08verInst(r, own)
+	k := hKey(r)
+	var rec enr.Record
+	rec.Set(enr.IPv4(net.IPv4(127, 0, 0, 1)))
+	rec.Set(enr.UDP(30303))
+	switch pv {
+	case "M":
+	case "E":
+		rec.Set(enr.WithEntry("pv", []byte{}))
+	case "X": // an RLP list where a byte string is expected
+		rec.Set(enr.WithEntry("pv", []string{"a", "b"}))
+	default:
+		b := []byte{}
+		for _, ch := range pv {
+			b = append(b, byte(ch-'0'))
+		}
+		rec.Set(enr.WithEntry("pv", b))
+	}
+	if err := enode.SignV4(&rec, k); err != nil {
+		panic(err)
+	}
+	peer, err := enode.New(enode.ValidSchemes, &rec)
+	if err != nil {
+		panic(err)
+	}
+	var out []byte
+	var oerr error
+	panicked, pmsg := guard(func() {
+		if op == "enc" {
+			out, oerr = inst.EncodeUtpContent(peer, data)
+		} else {
+			out, oerr = inst.DecodeUtpContent(peer, data)
+		}
+	})
+	obs := ""
+	switch {
+	case panicked:
+		obs = "panic " + pmsg
+	case oerr != nil:
+		obs = "err"
+	default:
+		obs = "ok " + hx(out)
+	}
+	c.Count("uc_" + op + "_peer_" + pv)
+	c.Emit("uc %s %s %s %s | %s", own, pv, op, hx(data), obs)
+}
+
+func c08ucCase(c *Ctx, r *Rng) {
+	own := r.Pick2([]string{"01", "01", "0", "1"})
+	pv := r.Pick2([]string{"M", "M", "M", "0", "1", "01", "10", "2", "12", "E", "X"})
+	d := r.Bytes(r.Pick([]int{0, 1, 5, 127, 128, 300, 1176, 3000}))
+	if r.Bool() {
+		c08execUc(c, r, own, pv, "enc", d)
+		return
+	}
+	// something to decode: a v1-framed item, a bare item, or a damaged frame
+	switch r.Intn(4) {
+	case 0:
+		d = portalwire.VerifHEncodeSingle(d)
+	case 1:
+		d = append(portalwire.VerifHEncodeSingle(d), 0)
+	}
+	c08execUc(c, r, own, pv, "dec", d)
+}
+
 func c08replay(c *Ctx, lines []string) {
 	for _, ln := range lines {
 		f := strings.Fields(strings.SplitN(ln, "|", 2)[0])
@@ -173,6 +258,8 @@ func c08replay(c *Ctx, lines []string) {
 		switch f[0] {
 		case "fc":
 			c08execFc(c, f[1], unhx(f[2]), f[3], unhx(f[4]), f[5], c11parseIns(f[6]))
+		case "uc":
+			c08execUc(c, NewRng(c.Seed), f[1], f[2], f[3], unhx(f[4]))
 		case "pc":
 			g := f[4]
 			if g == "-" {
@@ -317,18 +404,20 @@ func c08pcCase(c *Ctx, r *Rng, key string, pool []hPoolKey) {
 	c08execPc(c, key, hEnrBytes(sender), resp, gen)
 }
 
-func hInstanceV(r *Rng, versions []uint8) *portalwire.VerifHInstance {
+func hInstanceVS(r *Rng, versions []uint8) (*portalwire.VerifHInstance, *hMemStorage) {
 	k := hKey(r)
-	inst, err := portalwire.VerifHNew(portalwire.History, k, newMemStorageFor(), nil, versions, 50)
+	st := newMemStorage()
+	inst, err := portalwire.VerifHNew(portalwire.History, k, st, nil, versions, 50)
 	if err != nil {
 		panic(err)
 	}
-	return inst
+	return inst, st
 }
 
-var c08lastStore *hMemStorage
-
-func newMemStorageFor() *hMemStorage { c08lastStore = newMemStorage(); return c08lastStore }
+func hInstanceV(r *Rng, versions []uint8) *portalwire.VerifHInstance {
+	i, _ := hInstanceVS(r, versions)
+	return i
+}
 
 func c08vers(v []uint8) string {
 	s := ""
@@ -341,103 +430,161 @@ func c08vers(v []uint8) string {
 // c08live: two real instances over loopback UDP, both protocol versions on either side.  The responder holds contents around
 // the inline threshold and multi-packet ones; the asker's findContent runs for real (uTP stream for the large ones).
 func c08live(c *Ctx, r *Rng, quick bool) {
-	pairs := [][2][]uint8{{{0, 1}, {0, 1}}, {{0}, {0, 1}}, {{0, 1}, {0}}, {{1}, {0, 1}}}
+	type livePair struct {
+		va, vb         []uint8
+		stripA, stripB bool // the instance speaks only what is listed and advertises NO pv entry (a legacy peer)
+		sizes          []int
+	}
 	sizes := []int{0, 1, 1174, 1175, 1176, 1177, 4096, 60000}
 	if !quick {
 		sizes = append(sizes, 300000, 1<<20)
 	}
+	legacy := []int{1176, 4096}
+	pairs := []livePair{
+		{[]uint8{0, 1}, []uint8{0, 1}, false, false, sizes},
+		{[]uint8{0}, []uint8{0, 1}, false, false, sizes},
+		{[]uint8{0, 1}, []uint8{0}, false, false, sizes},
+		{[]uint8{1}, []uint8{0, 1}, false, false, sizes},
+		{[]uint8{0}, []uint8{0, 1}, true, false, legacy},  // legacy asker without a pv entry
+		{[]uint8{0, 1}, []uint8{0}, false, true, legacy},  // legacy responder without a pv entry
+		{[]uint8{0}, []uint8{0}, true, true, []int{1176}}, // both legacy
+	}
 	pool := hPool(r, 40)
-	for _, pr := range pairs {
-		a := hInstanceV(r, pr[0])
-		b := hInstanceV(r, pr[1])
-		bstore := c08lastStore
-		if _, err := a.Ping(b.Self()); err != nil {
-			c.Emit("live-error ping | %v", err)
-			continue
-		}
-		// responder's table: signed records so that the asker can verify them
-		var ins []c11ins
-		for _, k := range pool {
-			n := hRecord(k.key, k.id, hIP(r, r.Pick2([]string{"loop", "lan10", "pub"})), 30303, 1, r.Pick([]int{0, 300, 300}))
-			ins = append(ins, c11ins{hEnrBytes(n), true})
-		}
-		for _, x := range ins {
-			if n, err := hNodeFromBytes(x.enr); err == nil {
-				b.AddNode(n, true, false)
+	// the pairs run concurrently (each on its own instances and its own generator state); their lines are emitted in pair order
+	type pairOut struct {
+		lines  []string
+		counts []string
+	}
+	outs := make([]pairOut, len(pairs))
+	rngs := make([]*Rng, len(pairs))
+	for i := range pairs {
+		rngs[i] = NewRng(r.U64())
+	}
+	var wg sync.WaitGroup
+	for pi := range pairs {
+		wg.Add(1)
+		go func(pi int) {
+			defer wg.Done()
+			pr, r := pairs[pi], rngs[pi]
+			emit := func(format string, a ...any) { outs[pi].lines = append(outs[pi].lines, fmt.Sprintf(format, a...)) }
+			count := func(k string) { outs[pi].counts = append(outs[pi].counts, k) }
+
+			a := hInstanceV(r, pr.va)
+			if pr.stripA {
+				a.P.DiscV5.LocalNode().Delete(portalwire.Versions)
 			}
-		}
-		maxOut := func() int {
-			m := 0
-			for _, d := range b.Datagrams() {
-				if d.Out && d.Size > m {
-					m = d.Size
+			b, bstore := hInstanceVS(r, pr.vb)
+			if pr.stripB {
+				b.P.DiscV5.LocalNode().Delete(portalwire.Versions)
+			}
+			va, vb := c08vers(pr.va), c08vers(pr.vb)
+			if pr.stripA {
+				va += "x"
+			}
+			if pr.stripB {
+				vb += "x"
+			}
+			if _, err := a.Ping(b.Self()); err != nil {
+				emit("live-error ping | %v", err)
+				return
+			}
+			// responder's table: signed records so that the asker can verify them
+			var ins []c11ins
+			for _, k := range pool {
+				n := hRecord(k.key, k.id, hIP(r, r.Pick2([]string{"loop", "lan10", "pub"})), 30303, 1, r.Pick([]int{0, 300, 300}))
+				ins = append(ins, c11ins{hEnrBytes(n), true})
+			}
+			for _, x := range ins {
+				if n, err := hNodeFromBytes(x.enr); err == nil {
+					b.AddNode(n, true, false)
 				}
 			}
-			for _, d := range a.Datagrams() {
-				if d.Out && d.Size > m {
-					m = d.Size
-				}
-			}
-			return m
-		}
-		for _, sz := range sizes {
-			ckey := r.Bytes(8)
-			cid := sha256.Sum256(ckey)
-			content := r.Bytes(sz)
-			bstore.db[string(cid[:])] = content
-			want := sha256.Sum256(content)
-			a.Datagrams()
-			b.Datagrams()
-			flag, got, err := a.FindContent(b.Self(), ckey)
-			obs := "err"
-			if err == nil {
-				if gb, ok := got.([]byte); ok {
-					h := sha256.Sum256(gb)
-					obs = fmt.Sprintf("ok %d %d %x %d", flag, len(gb), h[:], maxOut())
-				} else {
-					obs = fmt.Sprintf("ok %d notbytes 0 %d", flag, maxOut())
-				}
-			} else {
-				obs = "err " + strings.ReplaceAll(err.Error(), " ", "_")
-			}
-			c.Count(fmt.Sprintf("live_transfer_%d", sz))
-			c.Emit("lfc %s %s %d ; %x | %s", c08vers(pr[0]), c08vers(pr[1]), sz, want[:], obs)
-		}
-		// not held: records
-		for i := 0; i < 3; i++ {
-			ckey := r.Bytes(9)
-			cid := sha256.Sum256(ckey)
-			t := newTags()
-			nl := b.NodeList()
-			recs := make([]string, len(nl))
-			for j, n := range nl {
-				eb := hEnrBytes(n)
-				recs[j] = hRecStr(t.tag(eb), n, len(eb), true)
-			}
-			a.Datagrams()
-			b.Datagrams()
-			flag, got, err := a.FindContent(b.Self(), ckey)
-			obs := "err"
-			if err == nil {
-				if ns, ok := got.([]*enode.Node); ok && flag == portalwire.ContentEnrsSelector {
-					tags := make([]string, len(ns))
-					for j, n := range ns {
-						if v, ok := t.lookup(hEnrBytes(n)); ok {
-							tags[j] = strconv.Itoa(v)
-						} else {
-							tags[j] = "?"
-						}
+			maxOut := func() int {
+				m := 0
+				for _, d := range b.Datagrams() {
+					if d.Out && d.Size > m {
+						m = d.Size
 					}
-					obs = fmt.Sprintf("ok %s %d", hTagList(tags), maxOut())
-				} else {
-					obs = fmt.Sprintf("ok wrong-selector-%d 0", flag)
 				}
+				for _, d := range a.Datagrams() {
+					if d.Out && d.Size > m {
+						m = d.Size
+					}
+				}
+				return m
 			}
-			c.Count("live_enrs")
-			c.Emit("lfe %s %s ; %s %s %s | %s", c08vers(pr[0]), c08vers(pr[1]), c20idHexC08(a.Self().ID()), new(big.Int).SetBytes(cid[:]).Text(16), hTagList(recs), obs)
+			for _, sz := range pr.sizes {
+				ckey := r.Bytes(8)
+				cid := sha256.Sum256(ckey)
+				content := r.Bytes(sz)
+				bstore.db[string(cid[:])] = content
+				want := sha256.Sum256(content)
+				a.Datagrams()
+				b.Datagrams()
+				flag, got, err := a.FindContent(b.Self(), ckey)
+				obs := "err"
+				if err == nil {
+					if gb, ok := got.([]byte); ok {
+						h := sha256.Sum256(gb)
+						obs = fmt.Sprintf("ok %d %d %x %d", flag, len(gb), h[:], maxOut())
+					} else {
+						obs = fmt.Sprintf("ok %d notbytes 0 %d", flag, maxOut())
+					}
+				} else {
+					obs = "err " + strings.ReplaceAll(err.Error(), " ", "_")
+				}
+				count(fmt.Sprintf("live_transfer_%d", sz))
+				emit("lfc %s %s %d ; %x | %s", va, vb, sz, want[:], obs)
+			}
+			// not held: records
+			nlfe := 3
+			if pr.stripA || pr.stripB {
+				nlfe = 1
+			}
+			for i := 0; i < nlfe; i++ {
+				ckey := r.Bytes(9)
+				cid := sha256.Sum256(ckey)
+				t := newTags()
+				nl := b.NodeList()
+				recs := make([]string, len(nl))
+				for j, n := range nl {
+					eb := hEnrBytes(n)
+					recs[j] = hRecStr(t.tag(eb), n, len(eb), true)
+				}
+				a.Datagrams()
+				b.Datagrams()
+				flag, got, err := a.FindContent(b.Self(), ckey)
+				obs := "err"
+				if err == nil {
+					if ns, ok := got.([]*enode.Node); ok && flag == portalwire.ContentEnrsSelector {
+						tags := make([]string, len(ns))
+						for j, n := range ns {
+							if v, ok := t.lookup(hEnrBytes(n)); ok {
+								tags[j] = strconv.Itoa(v)
+							} else {
+								tags[j] = "?"
+							}
+						}
+						obs = fmt.Sprintf("ok %s %d", hTagList(tags), maxOut())
+					} else {
+						obs = fmt.Sprintf("ok wrong-selector-%d 0", flag)
+					}
+				}
+				count("live_enrs")
+				emit("lfe %s %s ; %s %s %s | %s", va, vb, c20idHexC08(a.Self().ID()), new(big.Int).SetBytes(cid[:]).Text(16), hTagList(recs), obs)
+			}
+			a.Close()
+			b.Close()
+		}(pi)
+	}
+	wg.Wait()
+	for _, o := range outs {
+		for _, l := range o.lines {
+			c.Emit("%s", l)
 		}
-		a.Close()
-		b.Close()
+		for _, k := range o.counts {
+			c.Count(k)
+		}
 	}
 }
 
@@ -462,6 +609,9 @@ func runC08(c *Ctx) {
 	}
 	for i := 0; i < npc; i++ {
 		c08pcCase(c, r, key, pool)
+	}
+	for i := 0; i < npc/3; i++ {
+		c08ucCase(c, r)
 	}
 	c08live(c, r, c.Tier != "thorough")
 }
